@@ -35,10 +35,13 @@ def main():
     rc, out = sh('git status --short', cwd=wt)
     if out.strip():
         print('worktree dirty'); sys.exit(3)
+    sh('git checkout -q --detach %s' % sh('git -C /repo rev-parse HEAD')[1]
+       .strip(), cwd=wt)
     rc, out = sh('git apply --check %s' % patch, cwd=wt)
     if rc:
         print('%s: PATCH DOES NOT APPLY' % name); sys.exit(4)
     meta = {'name': name, 'property': prop, 'seed': int(seed),
+            'tree': sh('git rev-parse --short HEAD', cwd=wt)[1].strip(),
             'ran': [], 'checks': {}}
     notes = ''
     if os.path.exists(os.path.join(src, 'notes.md')):
